@@ -37,6 +37,8 @@ func headerPath(k *Kind) string {
 }
 
 func runC01(w *World, r *Report) {
+	r.Rule("declen", "stored length fields the size rules rely on are kept equal to the element size by every constructor and builder", 14)
+	declenRule(w, r)
 	codes, err := loadCodes()
 	if err != nil {
 		r.Fail(VUndecided, "spec", "codes.json", "", "-", err.Error())
